@@ -141,6 +141,8 @@ class Exec(object):
                     h(op)
                 else:
                     self.world.apply(op)
+                if getattr(self, "stalled", False):
+                    break
             return self.result()
         finally:
             self.disk.cleanup()
@@ -262,6 +264,11 @@ class Exec(object):
             try:
                 r, _ = self._call_writer(op["what"], path + ".shadow", obj, bpm, repeat, mode)
                 shadow = bytes(self.disk.read_bytes(path + ".shadow")) if r is True else None
+            except SimBudgetExceeded as e:
+                self.stalled = kernel.wall_stall(e)
+                self.fail(self.prop + ".stall", "writing %s never finished: %s" % (op["what"], e), wall=self.stalled, **feats)
+                self.written[path] = None
+                return
             except Exception:
                 shadow = None
             self.disk.next_plan = plan
@@ -284,7 +291,8 @@ class Exec(object):
             self.probes["object_rewritten_after_edit"] += 1
         self.written_objects[key_obj] = repr(model["tracks"])
         if isinstance(exc, SimBudgetExceeded):
-            self.fail(self.prop + ".stall", "writing %s never finished: %s" % (op["what"], exc), **feats)
+            self.stalled = kernel.wall_stall(exc)
+            self.fail(self.prop + ".stall", "writing %s never finished: %s" % (op["what"], exc), wall=self.stalled, **feats)
             self.written[path] = None
             return
         if plan is not None and plan.get("kind") == "error":
@@ -577,7 +585,8 @@ class Exec(object):
         feats = dict(self._features(model, plan)) if model else {"fault": plan["kind"] if plan else None}
         feats["reader"] = op.get("reader", "fresh")
         if isinstance(exc, SimBudgetExceeded):
-            self.fail("C17.stall", "reading never finished: %s" % exc, **feats)
+            self.stalled = kernel.wall_stall(exc)
+            self.fail("C17.stall", "reading never finished: %s" % exc, wall=self.stalled, **feats)
             return
         if flip is not None:
             self.clauses["C17.reject"] += 1
@@ -997,6 +1006,29 @@ def _vlq_numbers():
 
 
 def run_leg(prop, tier, seed, name):
+    """Enumeration legs run many library calls in one child; a wall-clock backstop
+    (armed once per leg) turns a call that never returns into a failure of the
+    leg's clause instead of a hung check."""
+    import signal
+
+    if name.startswith("vlq"):
+        signal.signal(signal.SIGALRM, kernel._raise_stall)
+        signal.setitimer(signal.ITIMER_REAL, 240 if ":" in name else 25, 1.0)
+    try:
+        return _run_leg(prop, tier, seed, name)
+    except SimBudgetExceeded as e:
+        kernel.wall_stall(e)
+        clause = "C16.vlq" if prop == "C16" else "C17.vlq_inverse"
+        return {"leg": name, "kind": "enumeration (not seeded search)", "cases": 0, "exhaustive": False,
+                "failures": [{"clause": clause, "detail": "the variable-length %s did not return for some integer of leg %s (wall-clock backstop)" % ("encoder" if prop == "C16" else "reader/writer pair", name.split(":")[0]), "features": {"leg": name.split(":")[0], "wall": True}, "program": {"prop": prop, "cfg": {}, "ops": [{"op": "leg", "name": name, "tier": tier}]}}]}
+    finally:
+        try:
+            signal.setitimer(signal.ITIMER_REAL, 0)
+        except Exception:
+            pass
+
+
+def _run_leg(prop, tier, seed, name):
     preload(prop)
     failures = []
     n = 0
@@ -1094,7 +1126,7 @@ def run_leg(prop, tier, seed, name):
         for ops in progs:
             n += 1
             program = {"prop": prop, "cfg": {"bufsize": 8192}, "ops": ops}
-            res = kernel.forked(execute, (prop, program))
+            res = kernel.forked(execute, (prop, program), soft=kernel.SOFT_STALL_S)
             if "harness_error" in res:
                 return res
             for f in res["failures"]:
